@@ -17,7 +17,8 @@ MANIFEST = {
              'C06_binop_value_where_both, C06_binop_missing_elsewhere, C06_binop_permutation_invariant -- Series op Series carries the union of the labels, holds '
              'op(a,b) / the missing marker per label, is invariant under re-ordering either operand, keeps the left order for equal indices; '
              'C06_resize_blocks_layout_independent and C06_frame_reindex_every_layout_is_label_lookup -- TypeBlocks.resize_blocks / Frame.reindex over EVERY block '
-             'layout equal the (row label, column label) lookup on the flattened columns (unconditionally since fix 658b4ce); C06_models_use_source_constants -- the '
+             'layout equal the (row label, column label) lookup on the flattened columns (unconditionally since fix 658b4ce); C06_tb_binop_layout_independent -- the operator between two aligned TypeBlocks (block_compatible / reblock / column-wise paths) '
+             'equals the per-column application on the flattened operands for every pair of layouts; C06_models_use_source_constants -- the '
              'keyword constants regenerated from the source (check_equals, union, fill_value, assume_unique) are the ones the models use. Refuted/C06.v: one computed '
              'witness per known finding. Correspondence (model evaluated by vm_compute inside Coq on the inputs the implementation ran on): Index / IndexHierarchy '
              'set operations (exhaustive over all pairs of repetition-free sequences of <= 3/4 labels, int/str/mixed-object labels, every operand kind), util kernels '
@@ -29,10 +30,9 @@ MANIFEST = {
              'setdiff1d as sort+dedup+filter; element-wise operators on exact integers, dyadic rationals, Booleans and NaN; sorted() fails exactly on mixed number/str '
              'label sets); label equality = structural equality of the observed values (no label set mixes 1 / 1.0 / True); the hash order of an unsortable frozenset is '
              'not predicted (such results are compared as label->value maps). Partial: TypeBlocks._ufunc_binary_operator (block_compatible / reblock / values paths) is '
-             'modelled and covered by correspondence over all layout pairs but has no refinement theorem; the Frame theorems cover the alignment (re-indexing) step, the '
-             'operator application on aligned frames is observed; dtype of results is observed only through the value classes (int / float / bool); operators pow, '
-             'shifts, matmul, string cells, datetime cells and NaN labels are outside the generators. Four open findings are listed in known/C06.jsonl; a fifth '
-             '(resize_blocks, both axes, one axis without common labels) was repaired upstream of this check by fix 658b4ce and is kept as a regression class.'),
+             'proved layout-independent for a TypeBlocks operand (C06_tb_binop_layout_independent); the 1-D array / scalar operand paths are modelled and observed only; dtype of results is observed only through the value classes (int / float / bool); operators pow, '
+             'shifts, matmul, string cells, datetime cells and NaN labels are outside the generators. Three open findings are listed in known/C06.jsonl (D12 comparisons, D12 logical operators, zero-column results); two more (resize_blocks with one axis '
+             'without common labels: fix 658b4ce; the .values fallback of incompatible layouts coercing every column: fix e1c1c73) are repaired and kept as regression classes.'),
     'technique': 'refinement proof (decision-procedure / block-walking model = set algebra / label lookup) + differential correspondence evaluated inside Coq',
 }
 PROPERTY_FILES = ['Properties/C06.v']
@@ -58,6 +58,7 @@ ASSUMPTIONS = [
 ]
 TRUSTED = ['ORACLE models of NumPy set routines, sorting and element-wise operators inside coq/SF/SetAlg.v and coq/SF/LabelAlignVal.v (validated only by the correspondence runs of this check)']
 EXHAUSTIVE = {'quick': False, 'thorough': False}
+GENERATED_FILES = ['Gen/Gen_c06.v']
 
 
 # ----------------------------------------------------------------------------- constants read from the source
@@ -751,7 +752,7 @@ def series_scalar_array(ctx):
 
 # ----------------------------------------------------------------------------- frames
 R_RESIZE = 'resize-both-axes-one-sided-no-common'   # fixed by 658b4ce
-F_VALUES = 'C06-values-path-coerces-columns'
+R_VALUES = 'values-path-coerces-columns'               # fixed by e1c1c73
 F_NOCOL = 'C06-zero-column-result-raises'
 
 
@@ -893,8 +894,8 @@ def frame_pair_cases(ctx, fa, fb, dta, dtb, opname, stratum):
         tags['regression'] = R_RESIZE          # repaired by fix 658b4ce; kept as a labelled regression class
     if not ca and not cb:
         tags['finding'] = F_NOCOL
-    elif values_path_class(fa, fb, dta, dtb) and okind == 'arith' and opname not in ('truediv', 'rtruediv'):
-        tags['finding'] = F_VALUES
+    elif values_path_class(fa, fb, dta, dtb):
+        tags['regression'] = R_VALUES         # repaired by fix e1c1c73: the spec (per-column classes, exact ints) must hold
     elif unmatched and okind == 'cmp':
         tags['finding'] = F_CMP
     elif unmatched and okind == 'logic':
@@ -1095,12 +1096,18 @@ def witnesses(ctx):
     e1 = zoo.frame_from_columns([], (), index=make_index(('x', 'y'), 'str'), columns=make_index((), 'str'))
     e2 = zoo.frame_from_columns([], (), index=make_index(('y', 'z'), 'str'), columns=make_index((), 'str'))
     yield from frame_pair_cases(ctx, e1, e2, [], [], 'add', 'witness:frame-op-frame')
-    # equal labels, layouts [2-D int,int | float] vs [int | 2-D float,float]
-    ca = [np.array([1, 2]), np.array([3, 4]), np.array([1.5, 2.5])]
-    cb = [np.array([5, 6]), np.array([3.0, 4.0]), np.array([1.5, 2.5])]
-    g1 = zoo.frame_from_columns(ca, ((2, True), (1, False)), columns=make_index(('a', 'b', 'c'), 'str'))
-    g2 = zoo.frame_from_columns(cb, ((1, False), (2, True)), columns=make_index(('a', 'b', 'c'), 'str'))
-    yield from frame_pair_cases(ctx, g1, g2, ['int', 'int', 'float'], ['int', 'float', 'float'], 'add', 'witness:frame-op-frame')
+    # regression (fix e1c1c73): equal labels, layouts [2-D int,int | float] vs [int | 2-D float,float], ints above 2**53:
+    # per-column dtype and exact integers, whatever the layouts
+    big = 2 ** 53 + 1
+    ca = [np.array([big, 2]), np.array([3, 4]), np.array([1.5, 2.5])]
+    cb = [np.array([big + 4, 6]), np.array([3.0, 4.0]), np.array([1.5, 2.5])]
+    cols3 = make_index(('a', 'b', 'c'), 'str')
+    g1 = zoo.frame_from_columns(ca, ((2, True), (1, False)), columns=cols3)
+    g2 = zoo.frame_from_columns(cb, ((1, False), (2, True)), columns=cols3)
+    g3 = zoo.frame_from_columns(cb, ((1, False), (1, False), (1, True)), columns=cols3)
+    for other in (g2, g3):
+        for opname in ('add', 'sub', 'mul', 'eq'):
+            yield from frame_pair_cases(ctx, g1, other, ['int', 'int', 'float'], ['int', 'float', 'float'], opname, 'witness:frame-op-frame')
 
 
 def cases(ctx):
